@@ -178,21 +178,30 @@ Proof.
     repeat first [ apply FMo_bind | apply FMo_ev | apply FMo_ev_absorb | apply FMo_ret | apply FMo_reg_undo | (apply FMo_upd; intro; reflexivity) ].
 Qed.
 
+Lemma FMo_refuse_held : forall d, FMo (refuse_held shipped d).
+Proof. intro d. unfold refuse_held; simpl. apply FMo_ev, FMo_guard. Qed.
+
+(* the pre-check of 2da36a1 with the fuse spent *)
+Lemma refuse_nf : forall d m b, fuse b = None -> (refuse_held shipped d ;; m) b = if held d b then (b, Raised false) else m b.
+Proof.
+  intros d m b F. unfold bind, refuse_held; simpl. rewrite (ev_nf _ b F). unfold guard. destruct (held d b); reflexivity.
+Qed.
+
 Definition ingest_body (mo : mode) (d : N) : act :=
   load_dc ;; ev (guard (fun s => negb (has_ds d s))) ;; upd (on_cur (up_ds (add d))) ;;
   guard (fun s => match fget d (ext s) with Some _ => true | None => false end) ;;
-  with_ds shipped (transfer mo d ;; ev (stored_rows d)).
+  with_ds shipped (refuse_held shipped d ;; transfer mo d ;; ev (stored_rows d)).
 
 Lemma FMo_ingest_body : forall mo d, FMo (ingest_body mo d).
 Proof.
   intros mo d. unfold ingest_body, stored_rows.
-  repeat first [ apply FMo_bind | apply FMo_ev | apply FMo_guard | apply FMo_with_ds | apply FMo_transfer | apply FMo_load_dc | (apply FMo_upd; intro; reflexivity) ].
+  repeat first [ apply FMo_refuse_held | apply FMo_bind | apply FMo_ev | apply FMo_guard | apply FMo_with_ds | apply FMo_transfer | apply FMo_load_dc | (apply FMo_upd; intro; reflexivity) ].
 Qed.
 
 Lemma WB_ingest_body : forall mo d, WB (ingest_body mo d).
 Proof.
   intros mo d. unfold ingest_body.
-  repeat first [ apply WB_bind | apply WB_ev | apply WB_ret | apply WB_guard | apply WB_with_ds | apply WB_transfer
+  repeat first [ apply WB_refuse_held | apply WB_bind | apply WB_ev | apply WB_ret | apply WB_guard | apply WB_with_ds | apply WB_transfer
                | apply WB_load_dc | apply WB_stored_rows | (apply WB_upd; keeps) ].
 Qed.
 
@@ -237,6 +246,9 @@ Proof.
   unfold with_ds in E.
   set (b := set_ptr ([] :: ptr (on_cur (up_ds (add d)) a)) (on_cur (up_ds (add d)) a)) in *.
   assert (XB : fget d (ext b) = Some v) by (unfold b; simpl; rewrite K6; exact X).
+  rewrite (refuse_nf d _ b K3) in E. destruct (held d b) eqn:HB.
+  { unfold b in E. simpl in E. inversion E; subst. inversion H; subst.
+    exact (NOTHING (set_ptr (ptr a) (on_cur (up_ds (add d)) a)) K4 K2 K3). }
   destruct (transfer_nf mo d v b [] (ptr (on_cur (up_ds (add d)) a)) K3 eq_refl XB) as (b' & EB & B1 & B2 & B3 & B4 & B5 & B6).
   rewrite EB in E. simpl in B4. rewrite K4 in B4.
   destruct (ptr b') as [|l1 rr] eqn:PB; [exfalso; apply B5; reflexivity|]. simpl in B4. subst rr.
@@ -323,19 +335,19 @@ Definition imp_chain (d : N) : act :=
   ev (guard (imp_guard d) ;; stored_rows d).
 Definition imp_body (d : N) : act :=
   load_dc ;; ev (guard (fun s => negb (has_ds d s) || mem d (xf (cur s)))) ;;
-  upd (on_cur (fun x => up_xf (add d) (up_ds (add d) x))) ;; with_ds shipped (imp_chain d).
+  upd (on_cur (fun x => up_xf (add d) (up_ds (add d) x))) ;; with_ds shipped (refuse_held shipped d ;; imp_chain d).
 
 Lemma FMo_imp_body : forall d, FMo (imp_body d).
 Proof.
   intro d. unfold imp_body, imp_chain, stored_rows.
-  repeat first [ apply FMo_bind | apply FMo_ev | apply FMo_ret | apply FMo_guard | apply FMo_with_ds | apply FMo_reg_undo
+  repeat first [ apply FMo_refuse_held | apply FMo_bind | apply FMo_ev | apply FMo_ret | apply FMo_guard | apply FMo_with_ds | apply FMo_reg_undo
                | apply FMo_load_dc | (apply FMo_upd; intro; reflexivity) ].
 Qed.
 
 Lemma WB_imp_body : forall d, WB (imp_body d).
 Proof.
   intro d. unfold imp_body, imp_chain.
-  repeat first [ apply WB_bind | apply WB_ev | apply WB_ret | apply WB_guard | apply WB_with_ds | apply WB_reg_undo
+  repeat first [ apply WB_refuse_held | apply WB_bind | apply WB_ev | apply WB_ret | apply WB_guard | apply WB_with_ds | apply WB_reg_undo
                | apply WB_load_dc | apply WB_stored_rows | (apply WB_upd; keeps) ].
 Qed.
 
@@ -377,6 +389,9 @@ Proof.
   unfold bind at 1, upd at 1 in E. unfold with_ds in E.
   set (b := set_ptr ([] :: ptr (on_cur (fun x => up_xf (add d) (up_ds (add d) x)) a)) (on_cur (fun x => up_xf (add d) (up_ds (add d) x)) a)) in *.
   assert (FB : fuse b = None) by exact K3.
+  rewrite (refuse_nf d _ b FB) in E. destruct (held d b) eqn:HB.
+  { unfold b in E. simpl in E. inversion E; subst. simpl in H. rewrite K4 in H. simpl in H. inversion H; subst. simpl.
+    unfold DI, DIc; simpl. rewrite K2. repeat split; auto; apply HDI. }
   rewrite (imp_chain_nf d b [] (ptr (on_cur (fun x => up_xf (add d) (up_ds (add d) x)) a)) FB eq_refl) in E.
   destruct (imp_guard d b) eqn:IG.
   - unfold b in E. simpl in E. rewrite K4 in E. simpl in E. inversion E; subst. inversion H; subst. simpl.
@@ -402,7 +417,7 @@ Lemma FMo_exec_op : forall o, FMo (exec_op shipped o).
 Proof.
   destruct o; simpl; try rewrite do_transfer_unfold; unfold do_put, do_ingest, do_purge, do_unstore, butler_txn, stored_rows, remove_ds;
     repeat first
-    [ apply FMo_xfer_ds | apply FMo_do_trash | apply FMo_do_empty_trash | apply FMo_transfer | apply FMo_load_dc | apply FMo_reg_undo
+    [ apply FMo_refuse_held | apply FMo_xfer_ds | apply FMo_do_trash | apply FMo_do_empty_trash | apply FMo_transfer | apply FMo_load_dc | apply FMo_reg_undo
     | apply FMo_bind | apply FMo_ev | apply FMo_ev_absorb | apply FMo_ret | apply FMo_raise | apply FMo_guard | apply FMo_swallow
     | apply FMo_with_reg | apply FMo_with_ds | (apply FMo_upd; intro; reflexivity) ].
 Qed.
